@@ -94,8 +94,13 @@ def check_norm(ctx, P, depths, p, tag):
         return None, crossing
     got = float(got)
     name = "p-norm == (sum of integrals of |f|^p)^(1/p)" if tag == "exact" else "grid: p-norm == integral of the interpolated samples"
-    ctx.check(name, abs(got ** p - want) <= 1e-9 * want + tol + 1e-300, got=got, want=want ** (1.0 / p) if want > 0 else 0.0, p=p,
-              has_sign_crossing=crossing)
+    if p > 20:
+        # very large finite p: a relative error e of the norm is p*e on the p-th-power scale, so these are judged on the norm scale
+        wn = want ** (1.0 / p) if want > 0 else 0.0
+        ctx.check(name, abs(got - wn) <= 1e-8 * wn + 1e-300, got=got, want=wn, p=p, has_sign_crossing=crossing, large_p=True)
+    else:
+        ctx.check(name, abs(got ** p - want) <= 1e-9 * want + tol + 1e-300, got=got, want=want ** (1.0 / p) if want > 0 else 0.0, p=p,
+                  has_sign_crossing=crossing)
     return got, crossing
 
 
@@ -175,6 +180,10 @@ def run_case(ctx, k, rng):
             ctx.exception("operand constructs", e)
             return
         depths = exact_depths(P)
+        ys_ = [abs(y) for dp in depths for _, y in dp if y != 0]
+        if ys_ and 0.05 <= min(ys_) and max(ys_) <= 8 and rng.random() < 0.15:
+            p = float(rng.choice([151, 200, 256.5, 300, 120]))      # finite, far beyond the usual: still the p-th root of the integral
+            ctx.note("very large p")
         ctx.begin(k, "exact/" + style, {"critical_pairs": depths, "p": p, "how": desc})
         got, crossing = check_norm(ctx, P, depths, p, "exact")
         if crossing:
@@ -185,8 +194,8 @@ def run_case(ctx, k, rng):
             ctx.check("sup norm == max |ordinate|", s == ref_sup(depths), got=s, want=ref_sup(depths))
         except Exception as e:
             ctx.exception("sup norm == max |ordinate|", e)
-        if got is None:
-            return
+        if got is None or p > 20:
+            return          # (very large p: only the value itself is judged; the relations below involve operands of other magnitudes)
         sub = int(rng.integers(0, 4))
         try:
             if sub == 0:
